@@ -1,9 +1,11 @@
 (* C19 - Comparisons and membership tests match CPython.
    Only statements; proofs live in Proof/P_Cmp.v (cascades, FlattenInListTransform) and
-   Proof/P_CmpSw.v (SwitchTransform).  Model: Model/M_Cmp.v.  In every model function the
+   Proof/P_CmpSw.v (SwitchTransform), Proof/P_CmpInt.v (PyObjectCompare on two ints).
+   Models: Model/M_Cmp.v, Model/M_CmpInt.v.  In every model function the
    boolean flag selects the code as it is (false) or the proposed repair (true). *)
 From Coq Require Import ZArith List Bool.
-From CyVerif Require Import Lib.CInt Model.M_Cmp Proof.P_Cmp Proof.P_CmpSw.
+From CyVerif Require Import Lib.CInt Lib.PyLong Model.M_Cmp Proof.P_Cmp Proof.P_CmpSw.
+From CyVerif Require Import Model.M_CmpInt Proof.P_CmpInt.
 Import ListNotations.
 Open Scope Z_scope.
 
@@ -158,6 +160,61 @@ Theorem C19_switch_labels_unfaithful_refuted : exists cls els subj cases els',
   stmt_valid (SSwitch subj cases els') = false.
 Proof. exact switch_labels_unfaithful_refuted. Qed.
 Print Assumptions C19_switch_labels_unfaithful_refuted.
+
+(* ---- PyObjectCompare on two Python ints (Cython/Utility/Optimize.c:
+        __Pyx_PyObject_CompareIntInt<Op> + __Pyx_PyLong_CompareSignAndSize): for every operator,
+        every configuration satisfying cfg_ok and every pair of well-formed CPython ints (any
+        sign, any number of digits) the helper returns the comparison of the two values and no
+        signed Py_ssize_t operation overflows (Some).  rich = PyObject_RichCompare contract,
+        reached only without CYTHON_USE_PYLONG_INTERNALS when both operands overflow long long
+        on the same side ---- *)
+Theorem C19_intint_eq : forall c rich op a b,
+  cfg_ok c -> (forall o x y, rich o x y = zop o x y) ->
+  wf (i_sh c) a -> wf (i_sh c) b ->
+  cmp_intint c rich op a b = Some (zop op (value (i_sh c) a) (value (i_sh c) b)).
+Proof. exact intint_correct. Qed.
+Print Assumptions C19_intint_eq.
+
+(* the dispatcher's identity shortcut (op1 == op2) agrees with it *)
+Theorem C19_intint_identity_eq : forall c rich op (same : bool) a b,
+  cfg_ok c -> (forall o x y, rich o x y = zop o x y) ->
+  wf (i_sh c) a -> wf (i_sh c) b -> (same = true -> a = b) ->
+  cmp_exact c rich op same a b = Some (zop op (value (i_sh c) a) (value (i_sh c) b)).
+Proof. exact exact_correct. Qed.
+Print Assumptions C19_intint_identity_eq.
+
+(* stated on values (operands = the normalised representation PyLong_From* builds): this is the
+   function the correspondence run evaluates *)
+Theorem C19_intint_values_eq : forall c op (same : bool) x y,
+  cfg_ok c -> (same = true -> x = y) -> cmp_values c op same x y = Some (zop op x y).
+Proof. exact values_correct. Qed.
+Print Assumptions C19_intint_values_eq.
+
+(* the digit loop, entered at index k-1, compares the numbers formed by the k low digits: every
+   digit position down to index 0 takes part *)
+Theorem C19_intint_digit_loop : forall sh w a b, 0 <= sh -> sh < w ->
+  digits_ok sh (pl_digits a) -> digits_ok sh (pl_digits b) ->
+  length (pl_digits a) = length (pl_digits b) ->
+  forall k, (k <= length (pl_digits a))%nat ->
+  exists d, digit_loop w a b k 0 = Some d /\
+            cmp_says w d (mag sh (firstn k (pl_digits a))) (mag sh (firstn k (pl_digits b))).
+Proof. exact digit_loop_spec. Qed.
+Print Assumptions C19_intint_digit_loop.
+
+(* the configurations: CPython 3.12 LP64 (run), the same without PyLong internals (run),
+   pre-3.12 Py_SIZE layout, 15-bit digits on ILP32 *)
+Theorem C19_intint_configs :
+  cfg_ok lp64_312 /\ cfg_ok lp64_noint /\ cfg_ok lp64_311 /\ cfg_ok ilp32_15.
+Proof. exact (conj cfg_ok_lp64_312 (conj cfg_ok_lp64_noint (conj cfg_ok_lp64_311 cfg_ok_ilp32_15))). Qed.
+Print Assumptions C19_intint_configs.
+
+(* non-trivial instance: two three-digit ints that differ in the lowest digit only are told
+   apart, after three iterations of the digit loop (branch 6) *)
+Example C19_intint_nonvacuous :
+  cmp_values lp64_312 OpEq false (2 ^ 60 + 1) (2 ^ 60 + 2) = Some false /\
+  cmp_values lp64_312 OpLt false (2 ^ 60 + 1) (2 ^ 60 + 2) = Some true /\
+  branch_values lp64_312 (2 ^ 60 + 1) (2 ^ 60 + 2) = (6, 3).
+Proof. exact lowest_digit_decides. Qed.
 
 (* the hypotheses are satisfiable on non-trivial values: a 3-link cascade that stops at the
    second link, a flattened test with two member temps, an accepted 3-clause chain *)
